@@ -68,6 +68,7 @@ def all_cases(tier, double=None):
     else:
         cases = structure_cases(11) + deviation_cases(
             True if double is None else double)
+    cases = cases + large_cases()
     _CACHE[key] = cases
     return cases
 
@@ -108,6 +109,72 @@ def cross_module_cases():
         ir = irgen.mk_ir(14, modules=mods,
                          cfg=[(U(1), U(7), None), (U(7), U(1), (1, False, True))])
         out.append(("cross-module/refs-into-%s-module" % order, ir))
+    return out
+
+
+def large_cases():
+    """IRs of realistic magnitude: every container well past small internal
+    thresholds (8, 16, 32, 64, 256, 1024, one 4 KiB page), names longer than a
+    few characters, page-sized and sparse addresses, long AuxData tables with
+    negative values, a byte vector ending in whole pages of zero bytes."""
+    U = irgen.U
+    out = []
+    for n in (9, 17, 33, 70):
+        blocks = []
+        for i in range(n):
+            blocks.append(irgen.mk_block(
+                "code" if i % 2 else "data", 1000 + i, offset=8 * i,
+                size=8 if i % 3 else 0, decode_mode=(i % 2) * (i % 4 == 1)))
+        data = bytes((i * 37) % 251 + 1 for i in range(4096)) + bytes(8192)
+        b1 = irgen.mk_interval(1, address=0x601000, size=16384,
+                               contents=data if n >= 33 else data[:100],
+                               blocks=blocks)
+        proxies = [{"uuid": U(2000 + i)} for i in range(n)]
+        syms = []
+        for i in range(n):
+            # n symbols sharing one name, n symbols on one block
+            syms.append(irgen.mk_symbol(3000 + i, "$d",
+                                        ("ref", U(2000 + i))))
+            syms.append(irgen.mk_symbol(
+                4000 + i, "long_symbol_name_%04d_\u00e9" % i,
+                ("ref", U(1001))))
+        b1["symexprs"] = {
+            8 * i: ({"kind": "const", "offset": i - 5, "sym1": U(3000 + i),
+                     "attrs": [i % 7]} if i % 2 else
+                    {"kind": "addr", "offset": -i, "scale": 1 + i % 3,
+                     "sym1": U(4000 + i), "sym2": U(3000), "attrs": []})
+            for i in range(n)}
+        ivs = [b1] + [irgen.mk_interval(5000 + i, address=0x1000 * (i + 1),
+                                        size=0x800, contents=b"\x90" * (i % 5))
+                      for i in range(n)]
+        secs = [irgen.mk_section(6000, ".data", flags=[1, 2], intervals=ivs)]
+        secs += [irgen.mk_section(6001 + i, ".sec%d" % i, flags=[i % 6 + 1])
+                 for i in range(n)]
+        neg = [(-1) ** i * (i * 7919 % 30000) for i in range(300 if n < 70
+                                                             else 1100)]
+        m1 = irgen.mk_module(
+            7000, "a_module_with_a_long_name", sections=secs, symbols=syms,
+            proxies=proxies, entry=U(1001), isa=3, file_format=2,
+            byte_order=2,
+            aux={"functionBlocks": ("mapping<UUID,set<UUID>>",
+                                    {U(1001): frozenset(U(2000 + i)
+                                                        for i in range(n)),
+                                     U(1003): frozenset()}),
+                 "neg16": ("sequence<int16_t>", neg),
+                 "names": ("mapping<string,uint64_t>",
+                           {"k%d" % i: i for i in range(n * 16)})})
+        more = [irgen.mk_module(7100 + i, "m%d" % i) for i in range(n)]
+        cfg = [(U(1001), U(2000 + i), (i % 4, bool(i % 2), bool(i % 3 == 0)))
+               for i in range(n)] + [(U(2000 + i), U(1001), None)
+                                     for i in range(n)]
+        ir = irgen.mk_ir(8000, modules=[m1] + more, cfg=cfg,
+                         aux={"neg64": ("sequence<int64_t>",
+                                        [x * 1000003 for x in neg]),
+                              "allnodes": ("sequence<UUID>",
+                                           [U(2000 + i) for i in range(n)]),
+                              "nodeset": ("set<UUID>", frozenset(
+                                  U(1000 + i) for i in range(n)))})
+        out.append(("large/n=%d" % n, ir))
     return out
 
 
